@@ -392,6 +392,61 @@ def walk(t: Term):
         yield from walk(t.value)
 
 
+def expand_ites(t: Term, limit: int = 64) -> List[Tuple[Tuple[Guard, ...], Term]]:
+    """all alternatives of a term with Ite nodes anywhere inside constructor / tuple / call arguments"""
+    tests: List[Term] = []
+    for x in walk(t):
+        if isinstance(x, Ite) and x.test not in tests:
+            tests.append(x.test)
+    if not tests or 2 ** len(tests) > limit:
+        return alternatives(t)
+    import itertools as _it
+    out = []
+    for choice in _it.product((True, False), repeat=len(tests)):
+        m = dict(zip(tests, choice))
+
+        def pick(u: Term) -> Term:
+            if isinstance(u, Ite):
+                return pick(u.a if m[u.test] else u.b)
+            if isinstance(u, New):
+                return New(u.cls, tuple((k, pick(v)) for k, v in u.fields))
+            if isinstance(u, TupleT):
+                return TupleT(tuple(pick(a) for a in u.items), u.kind)
+            if isinstance(u, Call):
+                return Call(pick(u.func), tuple(pick(a) for a in u.args), tuple((k, pick(v)) for k, v in u.kwargs))
+            if isinstance(u, Attr):
+                return Attr(pick(u.base), u.name)
+            if isinstance(u, Op):
+                return Op(u.op, tuple(pick(a) for a in u.args))
+            return u
+        leaf = pick(t)
+        gs = tuple((tt, m[tt]) for tt in tests if any(y is tt or y == tt for y in [tt]))
+        # keep only the tests that actually guard the chosen leaf
+        out.append((gs, leaf))
+    uniq = []
+    for g, l in out:
+        if (g, l) not in uniq:
+            uniq.append((g, l))
+    return uniq
+
+
+def expand_outcomes(outs: List['Outcome'], limit: int = 64) -> List['Outcome']:
+    """return-outcomes whose value holds conditional sub-terms (from inlined helpers that choose between constructions)
+    are split into one outcome per choice, the choice recorded as extra guards"""
+    res: List[Outcome] = []
+    for o in outs:
+        if o.kind != 'return' or o.value is None or not any(isinstance(x, Ite) for x in walk(o.value)):
+            res.append(o)
+            continue
+        for gs, leaf in expand_ites(o.value, limit):
+            # drop choices that contradict the path's own guards
+            known = {t: pol for t, pol in norm_guards(o.guards)}
+            if any(known.get(t, pol) != pol for t, pol in norm_guards(gs)):
+                continue
+            res.append(Outcome(o.kind, leaf, o.guards + tuple(gs), o.effects, o.asserts, o.lineno, o.env, o.trace))
+    return res
+
+
 def alternatives(t: Term, guards: Tuple[Guard, ...] = ()) -> List[Tuple[Tuple[Guard, ...], Term]]:
     """flatten top-level Ite chains into (guards, leaf) alternatives"""
     if isinstance(t, Ite):
@@ -464,6 +519,29 @@ def default_inline(fi: FunctionInfo, depth: int) -> bool:
         if isinstance(n, (ast.If, ast.IfExp)):
             nif += 1
     return nstmt <= 10 and nif <= 3
+
+
+def helper_inline(modules: Tuple[str, ...] = (), exclude: Tuple[str, ...] = (), max_stmt: int = 30) -> Callable[[FunctionInfo, int], bool]:
+    """default policy, plus: private (underscore) helpers of the given modules are looked through even when they loop"""
+    def pol(fi: FunctionInfo, depth: int) -> bool:
+        if default_inline(fi, depth):
+            return True
+        if depth > 3 or not fi.name.startswith('_') or fi.name.startswith('__') or fi.name in exclude:
+            return False
+        if modules and fi.module.name not in modules:
+            return False
+        if fi.name in OPAQUE_METHODS and fi.cls is not None:
+            return False
+        n = 0
+        for x in ast.walk(fi.node):
+            if isinstance(x, (ast.With, ast.Yield, ast.YieldFrom, ast.While)):
+                return False
+            if isinstance(x, ast.Try) and (x.finalbody or x.orelse or not all(len(h.body) == 1 and isinstance(h.body[0], ast.Raise) for h in x.handlers)):
+                return False
+            if isinstance(x, ast.stmt):
+                n += 1
+        return n <= max_stmt
+    return pol
 
 
 class Evaluator:
@@ -862,6 +940,17 @@ class Evaluator:
             raise AnalysisError('TERMS', f'assignment target {type(target).__name__} not modelled')
 
     @staticmethod
+    def _mutates(body: List[ast.stmt], iter_node: ast.expr) -> bool:
+        """the loop body appends to / pops from the very list it iterates (work-list loops are not unrolled)"""
+        if not isinstance(iter_node, ast.Name):
+            return False
+        for b in body:
+            for n in ast.walk(b):
+                if isinstance(n, ast.Call) and isinstance(n.func, ast.Attribute) and isinstance(n.func.value, ast.Name) and n.func.value.id == iter_node.id and n.func.attr in ('append', 'extend', 'pop', 'insert', 'remove', 'clear'):
+                    return True
+        return False
+
+    @staticmethod
     def _assigned_names(body: List[ast.stmt]) -> List[str]:
         names = []
         for n in body:
@@ -874,6 +963,25 @@ class Evaluator:
         if isinstance(s, ast.For):
             it = self.expr(s.iter, st, mod, fi, depth)
             tsrc = ast.unparse(s.target)
+            lit = it
+            if isinstance(lit, Call) and isinstance(lit.func, Ext) and lit.func.name in ('reversed',) and len(lit.args) == 1 and isinstance(lit.args[0], TupleT):
+                lit = TupleT(tuple(reversed(lit.args[0].items)), lit.args[0].kind)
+            if isinstance(lit, TupleT) and lit.kind in ('tuple', 'list') and 0 < len(lit.items) <= 8 and not s.orelse \
+                    and not any(isinstance(x, Op) and x.op == '*' for x in lit.items) \
+                    and not any(isinstance(n, (ast.Break, ast.Continue)) for b in s.body for n in ast.walk(b)) \
+                    and not self._mutates(s.body, s.iter):
+                states = [st]
+                for item in lit.items:
+                    nxt: List[_State] = []
+                    for cur in states:
+                        self.assign(s.target, item, cur, mod, fi, depth)
+                        nxt.extend(self.block(s.body, [cur], mod, fi, depth, outs))
+                    states = nxt
+                    if len(states) > 64:
+                        break
+                else:
+                    return states
+                # too many paths: fall through to the summary
         else:
             it = self.expr(s.test, st, mod, fi, depth)
             tsrc = '<while>'
@@ -914,6 +1022,9 @@ class Evaluator:
         for n in set(assigned):
             st.env[n] = Opaque(f'loop:{n}')
         st.env.pop('__flow__', None)
+        built = self._list_builder(s, st, mod, fi, depth) if isinstance(s, ast.For) else None
+        if built is not None:
+            st.env[built[0]] = built[1]
         if s.orelse:
             if has_break:
                 a = st.fork()
@@ -923,6 +1034,33 @@ class Evaluator:
                 return self.block(s.orelse, [a], mod, fi, depth, outs) + [b]
             return self.block(s.orelse, [st], mod, fi, depth, outs)
         return [st]
+
+    def _list_builder(self, s: ast.For, st: _State, mod, fi, depth) -> Optional[Tuple[str, Term]]:
+        """`for x in xs: [for y in ys:] acc.append(e)` with acc an empty local list -> acc = [e for x in xs for y in ys]"""
+        gens: List[Tuple[ast.expr, ast.expr]] = []
+        cur: ast.stmt = s
+        while isinstance(cur, ast.For) and not cur.orelse:
+            gens.append((cur.target, cur.iter))
+            if len(cur.body) != 1:
+                return None
+            cur = cur.body[0]
+        if not (isinstance(cur, ast.Expr) and isinstance(cur.value, ast.Call) and isinstance(cur.value.func, ast.Attribute) and cur.value.func.attr == 'append'
+                and isinstance(cur.value.func.value, ast.Name) and len(cur.value.args) == 1):
+            return None
+        acc = cur.value.func.value.id
+        init = st.env.get(acc)
+        if not (isinstance(init, TupleT) and init.kind == 'list' and not init.items):
+            return None
+        sub = st.fork()
+        tgens = []
+        for tgt, it in gens:
+            itt = self.expr(it, sub, mod, fi, depth)
+            for n in ast.walk(tgt):
+                if isinstance(n, ast.Name):
+                    sub.env[n.id] = Sym(f'each:{n.id}')
+            tgens.append((ast.unparse(tgt), itt, ()))
+        elt = self.expr(cur.value.args[0], sub, mod, fi, depth)
+        return acc, Comp('list', elt, tuple(tgens))
 
     def try_(self, s: ast.Try, st: _State, mod, fi, depth, outs) -> List[_State]:
         pre = st.fork()
@@ -1101,6 +1239,7 @@ class Evaluator:
                 ifs = tuple(self.expr(c, sub, mod, fi, depth) for c in g.ifs)
                 gens.append((ast.unparse(g.target), it, ifs))
             kind = 'gen' if isinstance(e, ast.GeneratorExp) else 'list' if isinstance(e, ast.ListComp) else 'set'
+            gens = _split_product(gens)
             return Comp(kind, self.expr(e.elt, sub, mod, fi, depth), tuple(gens))
         if isinstance(e, ast.DictComp):
             sub = st.fork()
@@ -1493,6 +1632,19 @@ class Evaluator:
         return Call(func, args, kwargs)
 
 
+def _split_product(gens):
+    """`for (a, b) in itertools.product(xs, ys)` == `for a in xs for b in ys`"""
+    out = []
+    for tgt, it, ifs in gens:
+        names = [x.strip() for x in tgt.strip('()').split(',')] if ',' in tgt else None
+        if names and isinstance(it, Call) and isinstance(it.func, Ext) and it.func.name in ('itertools.product', 'product') and len(it.args) == len(names) and not it.kwargs and all(n.isidentifier() for n in names):
+            for i, (n, a) in enumerate(zip(names, it.args)):
+                out.append((n, a, ifs if i == len(names) - 1 else ()))
+        else:
+            out.append((tgt, it, ifs))
+    return out
+
+
 def subst(t: Term, m: Dict[Term, Term]) -> Term:
     """structural substitution of sub-terms"""
     if t in m:
@@ -1551,3 +1703,19 @@ def norm_guard(g: Guard) -> Guard:
 
 def norm_guards(gs: Tuple[Guard, ...]) -> Tuple[Guard, ...]:
     return tuple(norm_guard(g) for g in gs)
+
+
+def flat_guards(gs: Tuple[Guard, ...]) -> Tuple[Guard, ...]:
+    """strip negations; a true conjunction / false disjunction is the conjunction of its parts"""
+    out: List[Guard] = []
+
+    def add(g: Guard):
+        t, pol = norm_guard(g)
+        if isinstance(t, Op) and len(t.args) > 1 and ((t.op == 'and' and pol) or (t.op == 'or' and not pol)):
+            for a in t.args:
+                add((a, pol))
+        else:
+            out.append((t, pol))
+    for g in gs:
+        add(g)
+    return tuple(out)
